@@ -84,6 +84,7 @@ class RunEnv:
         self.shift = 0      # rotates 'rot' answers: differs per execution
         self.tag = ''       # appended to volatile tokens (per-thread mark)
         self.defined = set()  # attribute sites defined so far (side effects)
+        self.stable = {}      # objects handed out again on every invocation
 
     # -- registry -------------------------------------------------------
     def site(self, name):
@@ -141,6 +142,11 @@ class RunEnv:
             ev.fired = {'kind': 'raise', 'exc': r['raise'], 'scripted': 1}
             self.fired.append((name, k, ev.fired))
             raise EXC[r['raise']](r.get('msg', 'scripted@%s#%d' % (name, k)))
+        if r.get('same'):                # the identical object every time
+            if name not in self.stable:
+                self.stable[name] = self.materialise(
+                    {k_: v_ for k_, v_ in r.items() if k_ != 'same'}, name, k)
+            return self.stable[name]
         if 'rot' in r:                   # differs per call and per execution
             return self.materialise(
                 r['rot'][(k - 1 + self.shift) % len(r['rot'])], name, k)
@@ -162,13 +168,17 @@ class RunEnv:
             return Obj(self, name, r['obj'], r.get('sites', ()),
                        r.get('fallback', False))
         if 'map' in r:
-            return Map(self, name, r['map'], r.get('fallback', False))
+            return Map(self, name, r['map'], r.get('fallback', False),
+                       r.get('computed', ()))
         if 'pair' in r:
             return (r['pair'][0], self.materialise(r['pair'][1], name, k))
         if 'strobj' in r:
             return StrObj(self, r['strobj'])
         if 'boolobj' in r:
             return BoolObj(self, r['boolobj'], r.get('truth', True))
+        if 'seqobj' in r:
+            return SeqObj(self, r['seqobj'], r.get('truth', True),
+                          r.get('len', 0))
         if 'key' in r:
             return Key(self, r['key'], r['rank'])
         if 'exc' in r:
@@ -222,12 +232,15 @@ class Obj:
 
 
 class Map:
-    def __init__(self, env, name, data, fallback=False):
+    def __init__(self, env, name, data, fallback=False, computed=()):
         self._env, self._name, self._fb = env, name, fallback
-        self._d = {k: env.materialise(v, '%s.%s' % (name, k), 0)
+        self._computed = computed       # keys whose value is computed on
+        self._d = {k: env.materialise(v, '%s.%s' % (name, k), 0)  # access
                    for k, v in data.items()}
 
     def __getitem__(self, k):
+        if k in self._computed:
+            return self._env.invoke('%s.%s' % (self._name, k))
         if k in self._d:
             return self._d[k]
         if self._fb and (k in self._env.sites or k in self._env.extra_names):
@@ -284,6 +297,26 @@ class BoolObj:
 
     def __str__(self):
         return 'boolobj'
+
+
+class SeqObj(BoolObj):
+    """sequence-like value with its own truth: __bool__ decides (as it does
+    in Python), whatever __len__ and __getitem__ would suggest"""
+
+    def __init__(self, env, name, truth, n):
+        BoolObj.__init__(self, env, name, truth)
+        self._n = n
+
+    def __len__(self):
+        return self._n
+
+    def __getitem__(self, i):
+        if 0 <= i < self._n:
+            return i
+        raise IndexError(i)
+
+    def __str__(self):
+        return 'seqobj'
 
 
 class Key:
@@ -348,6 +381,11 @@ def node_src(n):
         if how == 'client':     # explicit call with a client object
             return ('<dtml-var expr="%s(_.namespace(cl=5)[0], _)">'
                     % n['name'])
+        if how == 'clients2':   # a path of two client objects
+            return ('<dtml-var expr="%s((_.namespace(cl=5)[0], '
+                    '_.namespace(cm=6)[0]), _)">' % n['name'])
+        if how == 'clients0':   # an empty client path
+            return '<dtml-var expr="%s((), _)">' % n['name']
         if how == 'call':
             return '<dtml-call %s>' % n['name']
         if how == 'if':
